@@ -22,4 +22,5 @@ def run(report, tier, seed):
     validators_gating.run(report, tier, seed)
 
 
-replay = generic_replay
+def replay(rp):
+    return generic_replay(rp) if "obligation" in rp else validators_gating.replay(rp)
